@@ -13,6 +13,42 @@ TRUST = ("Trusted: go/types, go/ssa, go/packages (x/tools v0.29.0), the Go front
          "Dead code is analysed like live code. Not a proof of the behavioural statement: ")
 
 CLAIMED = {
+    "C01": {
+        "technique": "constructor-option audit (value origin of WithDesc), exhaustive path enumeration over the EOF handling of BReader.Read with per-path return-value resolution (P5), must-pass-through reset checks for Seek, mismatch-edge reachability",
+        "text": "Structural necessary conditions: every blob.NewReader that wraps a stream in scheme/reg, scheme/ocidir and the client carries WithDesc of the caller's descriptor; all EOF paths of BReader.Read (enumerated, acyclic) evaluate the size test and the digest test and return a freshly built error whenever a mismatch edge was taken; LimitRead returns fresh errors on both limit edges and bounds its slice; Seek re-stores digester, verifying reader and every direct field Read writes before reporting success, and the new reader tees into the new digester; GetData returns data only behind the length and FromBytes digest comparisons; the Content-Range / Content-Length resume guards return errors; the raw stream fields are private to the reader.",
+        "note": "hash computation, the byte arithmetic for every slicing of reads, the off-by-one inside LimitRead and drop/resume sequences as such are not decided.",
+        "design": "DESIGN.md §3 C01",
+    },
+    "C05": {
+        "technique": "value-origin of the copied stream (no truncating wrapper), mismatch-edge reachability to the commit point (rename / closing PUT), must-pass-through of the rewind and of the cancel request on go/ssa",
+        "text": "Structural necessary conditions: layout BlobPut copies io.TeeReader(caller's reader, digester.Hash()) (bufio allowed, LimitReader not) and its rename is unreachable from the digest- and size-mismatch edges; the closing PUT of a chunked upload is unreachable from the digest- and size-mismatch edges, its digest= parameter and the returned digest come from the digester; after a failed single PUT the chunked upload is reachable only through Seek on the source and unreachable from the failed-rewind edges; every failure edge of an upload step reaches a return only through blobUploadCancel (or the fall-back); the single PUT's body function rewinds or returns ErrNotRetryable.",
+        "note": "the four coupled offsets of the chunk loop (seeded change C05-1 is numeric and not detected), minimum-chunk handling and the server's own digest check are not decided.",
+        "design": "DESIGN.md §3 C05",
+    },
+    "C13": {
+        "technique": "value-origin of written references (source-parameter taint with SetTag(\"\") as barrier), reachability after the manifest push, access-path identity of DAG nodes for inline data, go/cfg path counting over the carry-inline-data branches, comparison-edge checks",
+        "text": "Structural necessary conditions: no state-changing client call in package mod writes to a reference originating from a source parameter (SetTag(\"\") clears the tag); nothing is pushed after a node's manifest; inline Data stored into a descriptor comes from the same DAG node (child body ⇔ child descriptor; blob read from the target with that descriptor) and every path through a carry-inline-data branch stores fresh bytes or compares against them; the digest and size returned by the upload of a rewritten layer are compared with the computed ones and the mismatch edges return; a blob is copied from the reference it was read from.",
+        "note": "diff-id/history alignment, idempotence, determinism and option combinations are not decided.",
+        "design": "DESIGN.md §3 C13",
+    },
+    "C14": {
+        "technique": "edge-restricted reachability (P3) in BlobCopy and the copy traversal, value-origin of the per-digest gate key (looking through small helpers), dominating guards of the content goroutines",
+        "text": "Ordering core: the source BlobGet in BlobCopy is unreachable from the same-repository edge, the target-HEAD-succeeded edge and the mount-succeeded edge, and every path to it passes the HEAD and (same registry) the mount attempt; the registry scheme's BlobMount reaches no return before its request; the traversal never calls BlobCopy directly, every gate key is refTgt.SetTag(\"\").CommonName() (tag and digest cleared), the gate dominates the copy; content goroutines start only behind !EqualRepository; every path to the ManifestPut passes mTgt == nil, sDig != target digest or forceRecursive.",
+        "note": "request traces for all sharing patterns, whether registries grant mounts and the timing of concurrent HEADs are not decided.",
+        "design": "DESIGN.md §3 C14",
+    },
+    "C18": {
+        "technique": "reference-graph reachability with edges behind the action gate removed, constant/parameter audit of the action argument, instantiation of the filter pattern expression and anchoring check with regexp/syntax (with embedded positive/negative oracle examples), must-pass-through of the backup copy",
+        "text": "Structural necessary conditions: from runCheck no function that builds a state-changing request or writes a layout is reachable once call sites behind `action != check` are removed, and the action is passed down unchanged; every regexp.Compile reachable from filterList takes a pattern that, instantiated with sample filters and parsed, is anchored at both ends in every alternative, and both lists are read; the backup ImageCopy has the target as source, and from the backup-configured edge the overwriting copy is reachable only through it.",
+        "note": "the before/after comparison of registries, platform resolution and its cache (seeded change C18-2 not detected), tag movement between runs and template expansion are not decided.",
+        "design": "DESIGN.md §3 C18",
+    },
+    "C20": {
+        "technique": "path-expression decomposition into leaves with a whitelist in scheme/ocidir and pkg/archive and a remote-content taint classification elsewhere; must-pass-through of digest Validate() keyed by access path (followed into enclosing functions of closures)",
+        "text": "Path construction, decided for every input because it is the shape of the expressions: every os.* path in scheme/ocidir and pkg/archive = layout/caller directory ⊕ constants ⊕ listing/temp names ⊕ parts of a digest validated (or computed) on every path to the call ⊕ Clean(\"/\"+x); no os.Symlink/os.Link in pkg/archive; elsewhere no annotation value, tar header field, reference tag/digest or unvalidated digest part reaches an os.* path or the archive.Extract directory without the rooted Clean, and a cleaned name that is altered afterwards is rejected; every caller of tarOCILayoutDescPath has validated the digest on every path.",
+        "note": "links already present in the output directory, unusual file systems and a store to a validated digest field between validation and use are not decided.",
+        "design": "DESIGN.md §3 C20",
+    },
     "C04": {
         "technique": "statement-level path counting over go/cfg (sends per goroutine path, receives/decrements per barrier iteration, must-pass-through to the manifest write) plus SSA value-origin checks of completion values and recursive-call arguments",
         "text": "Ordering core, decided for every schedule and fault because it is the shape of the CFG: each goroutine of the copy traversal is counted before it starts and sends exactly one completion on every path after its last client call; every iteration path of the barrier loop is one receive + one decrement (the early non-blocking loop balances receives and decrements, with its flag tracked); every path to the ManifestPut passes the barrier exit and the nil edge of the received error; no spawn after the barrier, nothing mutating after the write; nested manifests go by digest with the child flag, tags without it; a failed source read / target write in BlobCopy never reaches `return nil`; the shared seen-entry is completed with the copy's own error.",
